@@ -21,11 +21,26 @@ def getField (j : Json) (k : String) : Except String Json := j.getObjVal? k
 def cmpField {α : Type} [ToJson α] (name : String) (model impl : α) : Option String :=
   let a := (toJson model).compress
   let b := (toJson impl).compress
-  if a == b then none else some s!"{name}: model={a} impl={b}"
+  if a == b then none else some s!"field={name} model={a} impl={b}"
 
 def firstSome : List (Option String) → Option String
   | [] => none
   | some s :: _ => some s
   | none :: t => firstSome t
+
+/-- all mismatching fields, joined with " ;; " (so a check can filter by field) -/
+def allSome (l : List (Option String)) : Option String :=
+  match l.filterMap id with
+  | [] => none
+  | xs => some (" ;; ".intercalate xs)
+
+/-- the constructor name of a derived-JSON inductive value: the single key of the object -/
+def opKind (j : Lean.Json) : String :=
+  match j with
+  | .obj kvs => match kvs.toList with
+    | [(k, _)] => k
+    | _ => "?"
+  | .str s => s
+  | _ => "?"
 
 end Driver
